@@ -1,6 +1,7 @@
 """C18 zone factories: one shared object per key (sequential histories and logical-thread schedules),
 zone equality / copy / pickle laws."""
 import contextlib
+import datetime
 import copy
 import gc
 import pickle
@@ -33,7 +34,7 @@ def _reset(kind):
 
 
 KEYS = {
-    "tzoffset": [("A", 3600), (None, -7200), ("A", 3601), ("td", "timedelta:3600")],
+    "tzoffset": [("A", 3600), (None, -7200), ("A", "timedelta:3600.5"), ("td", "timedelta:3600")],
     "tzstr": [("EST5EDT",), ("AEST-10AEDT,M10.1.0,M4.1.0/3",), ("UTC+3",), ("EST5EDT", True)],
     "gettz": [("UTC",), ("America/New_York",), ("Europe/London",), ("EST5EDT",)],
 }
@@ -45,14 +46,14 @@ def _request(kind, key, how="call"):
     if kind == "tzoffset":
         name, off = key
         if isinstance(off, str):
-            off = datetime.timedelta(seconds=int(off.split(":")[1]))
+            off = datetime.timedelta(seconds=float(off.split(":")[1]))
         return tz.tzoffset(name, off) if how == "call" else tz.tzoffset.instance(name, off)
     if kind == "tzstr":
         return tz.tzstr(*key) if how == "call" else tz.tzstr.instance(*key)
     return tz.gettz(*key) if how == "call" else tz.gettz.nocache(*key)
 
 
-def h_history(kind, length):
+def h_history(kind, length, first=None):
     """A history of `length` operations chosen symbolically from:
        req k | fresh k (instance/nocache) | drop k (forget the harness's references to key k, then gc) |
        clear (gettz only) | resize 1 | resize 3 (gettz only)"""
@@ -70,11 +71,18 @@ def h_history(kind, length):
         for j in range(length):
             o = kw["op%d" % j]
             ctx.assume(S.within(o, 0, len(ops) - 1))
+            if j == 0 and first is not None:
+                ctx.assume(S.eq(o, first))          # the first operation is a cell parameter: the cells run in parallel
             op, k = ops[ctx.concrete(o)]
             trace.append("%s%d" % (op, k))
             if op == "req":
                 z = _request(kind, KEYS[kind][k])
                 ctx.check(z is not None, "factory returned None", key="none", trace=trace)
+                ref = _request(kind, KEYS[kind][k], how="fresh")
+                ctx.check(z == ref and ref == z, "the shared object is not equal to a freshly built zone for the same request", key="shared-equal-" + kind, trace=trace)
+                probe = datetime.datetime(2003, 7, 1, 12, 0)
+                ctx.check(z.utcoffset(probe) == ref.utcoffset(probe) and z.tzname(probe) == ref.tzname(probe),
+                          "the shared object reports another offset / name than a freshly built zone for the same request", key="shared-answers-" + kind, trace=trace)
                 for old in held[k]:
                     tag = "-after-cache_clear" if cleared_since[k] else ""
                     ctx.check(old is z, "a second live object for the same key was returned",
@@ -185,6 +193,10 @@ def h_threads(kind, same_key, preemptions):
 
 
 # ------------------------------------------------------------------ equality / copies
+# neighbours in this list are compared with each other: transition-free files next to one another
+GETTZ_NAMES = ["America/New_York", "Etc/GMT+5", "EST", "Etc/GMT-3", "UTC", "Etc/GMT-14", "Europe/London", "Asia/Tokyo", "Australia/Lord_Howe"]
+
+
 def h_equal(kind):
     """Zones built from symbolic parameters: == reflexive/symmetric, equal zones give equal answers at a
     symbolic instant (whole seconds since 2000-01-01), copies and pickles (protocols 0..5) are equal and
@@ -198,16 +210,18 @@ def h_equal(kind):
     def mk(v):
         if kind == "tzoffset":
             return tz.tzoffset("X", v * 900)
+        if kind == "tzoffset-td":     # sub-second offsets given as timedelta (quarter seconds around one hour)
+            return tz.tzoffset("X", datetime.timedelta(seconds=3600, microseconds=250000 * v))
         if kind == "tzrange":
             return tz.tzrange("STD", v * 3600, "DST", v * 3600 + 3600)
         if kind == "tzstr":
             return tz.tzstr(["EST5EDT", "AEST-10AEDT,M10.1.0,M4.1.0/3", "UTC+3", "CET-1CEST,M3.5.0,M10.5.0/3"][v % 4])
         if kind == "tzutc":
             return tz.tzutc()
-        return tz.gettz(["America/New_York", "Europe/London", "Asia/Tokyo", "Australia/Lord_Howe"][v % 4])
+        return tz.gettz(GETTZ_NAMES[v % len(GETTZ_NAMES)])
 
     def fn(ctx, a, b, t, proto):
-        ctx.assume(S.within(a, -2, 2))
+        ctx.assume(S.within(a, -2, 2) if kind != "gettz" else S.within(a, 0, len(GETTZ_NAMES) - 1))
         ctx.assume(S.within(b, a, a + 1))
         ctx.assume(S.within(t, 0, 400 * 86400))
         ctx.assume(S.within(proto, 0, 5))
@@ -229,6 +243,10 @@ def h_equal(kind):
             return (d.utcoffset(), d.dst(), d.tzname())
         if za == zb:
             ctx.check(answers(za) == answers(zb), "equal zones answer differently", key="eq-answers-" + kind)
+        if kind == "tzoffset-td":
+            for v, z in ((a, za), (b, zb)):
+                ctx.check(z.utcoffset(None) == datetime.timedelta(seconds=3600, microseconds=250000 * v),
+                          "tzoffset(name, timedelta) reports another offset than requested", key="offset-as-requested")
         made = []
         for name, mkc in (("copy", lambda: copy.copy(za)), ("deepcopy", lambda: copy.deepcopy(za)),
                           ("pickle%d" % proto, lambda: pickle.loads(pickle.dumps(za, proto)))):
@@ -248,13 +266,15 @@ def cells(tier):
     q = tier == "quick"
     cs = []
     for kind in ("tzoffset", "tzstr", "gettz"):
-        cs.append(Cell(M, "h_history", dict(kind=kind, length=(3 if kind == "gettz" else 4) if q else (4 if kind == "gettz" else 5)),
-                       budget_s=240 if q else 3000, max_violations=500))
+        nops = 10 if kind == "gettz" else 7
+        for first in range(nops):
+            cs.append(Cell(M, "h_history", dict(kind=kind, length=(3 if kind == "gettz" else 4) if q else (4 if kind == "gettz" else 5), first=first),
+                           budget_s=240 if q else 1500, max_violations=500))
     for kind in ("tzoffset", "tzstr", "gettz", "tzutc"):
         for same in ((True,) if kind == "tzutc" else (True, False)):
             cs.append(Cell(M, "h_threads", dict(kind=kind, same_key=same, preemptions=1), budget_s=120, max_violations=500))
             cs.append(Cell(M, "h_threads", dict(kind=kind, same_key=same, preemptions=2), budget_s=200 if q else 1200, max_violations=500))
-    for kind in ("tzoffset", "tzrange", "tzstr", "tzutc", "gettz"):
+    for kind in ("tzoffset", "tzoffset-td", "tzrange", "tzstr", "tzutc", "gettz"):
         cs.append(Cell(M, "h_equal", dict(kind=kind), budget_s=200 if q else 1200, max_violations=100))
     return cs
 
